@@ -46,7 +46,7 @@ NUMPY_SCALAR_PRODUCERS = {"sqrt", "exp", "cos", "sin", "tan", "power", "float64"
 SANITIZERS = {"float", "int", "complex"}
 
 
-def _fold(ctx, entry: GateEntry, args: List[EP]) -> Mat:
+def _fold(ctx, entry: GateEntry, args: List[EP], reduction_rule: str = "C02-D6 group-law") -> Mat:
     repo = ctx.repo
     mod = repo.module(MATRICES)
 
@@ -86,7 +86,7 @@ def _fold(ctx, entry: GateEntry, args: List[EP]) -> Mat:
         shifted = out.subst({pname: EP.var(pname) + period})
         diff = shifted.first_difference(out)
         where = f"{entry.factory.module.relpath}:{entry.factory.node.lineno}"
-        ctx.check(diff is None, "C02-D6 group-law", f"{entry.factory.key}:reduction:{pname}", f"{entry.ident}: `{pname}` is reduced modulo {period!r} and the matrix has that period", f"{entry.ident}: `{pname}` is reduced modulo {period!r} before the matrix is built, but the closed form does not have that period: M({pname} + P)[{diff[0]}][{diff[1]}] = {diff[2]!r} vs {diff[3]!r}; angles outside the principal range give a different gate, so angle a followed by angle b is no longer angle a+b" if diff else "", where)
+        ctx.check(diff is None, reduction_rule, f"{entry.factory.key}:reduction:{pname}", f"{entry.ident}: `{pname}` is reduced modulo {period!r} and the matrix has that period", f"{entry.ident}: `{pname}` is reduced modulo {period!r} before the matrix is built, but the closed form does not have that period: M({pname} + P)[{diff[0]}][{diff[1]}] = {diff[2]!r} vs {diff[3]!r}; angles outside the principal range give a different gate, so angle a followed by angle b is no longer angle a+b" if diff else "", where)
     return out
 
 
